@@ -204,6 +204,11 @@ class Config:
         self.primitives = kw.get("primitives", set())
         # AST fns that may be inlined: name -> fn item
         self.inline = kw.get("inline", {})
+        # named scalar constants of the crate (name -> init expression): a use is replaced by the value, so that naming a
+        # literal / inlining a constant does not change a normal form
+        self.consts = kw.get("consts", None)
+        if self.consts is None:
+            self.consts = DEFAULT_CONSTS
         # pure free functions / constructors returning unknown values without being actions
         self.pure_fns = kw.get("pure_fns", {"from_u32", "from_char", "from_slice", "new", "from", "default", "take", "Borrowed", "Owned", "drop", "format", "conv", "must_use", "replace", "from_utf8", "with_capacity"})
         self.samples = kw.get("samples", [])
@@ -411,6 +416,10 @@ class Run:
             while lab.startswith("!"):
                 lab = lab[1:]
                 neg = not neg
+            ne = _split_top_ne(lab)
+            if ne is not None:
+                lab = "(%s == %s)" % ne
+                neg = not neg
             r = self.choose("guard", lab, [("true", True), ("false", False)])
             if lab in self.cfg.guards and lab.startswith("self.") and "(" not in lab:
                 self.fields[lab] = r
@@ -432,6 +441,8 @@ class Run:
         p = e["path"]
         if p in env:
             return env[p]
+        if self.cfg.consts and p.split("::")[-1] in self.cfg.consts and (p.split("::")[-1] == p or p.startswith("Self::") or p.startswith("self::") or p.startswith("super::") or p.startswith("crate::")):
+            return self.eval(self.cfg.consts[p.split("::")[-1]], {})
         a = decode_atom(p)
         if a:
             return ("atom", a[1])
@@ -631,6 +642,13 @@ class Run:
             r = self.match(arm["pat"], v, env2)
             if r is False:
                 continue
+            if r is None and arm["pat"].get("k") == "PLit" and isinstance(self.lit(arm["pat"]["lit"]), bool) and is_unk(v):
+                # `match c { true => .., false => .. }` is `if c`: same canonical guard as the if-form
+                if "bool" not in decided:
+                    decided["bool"] = self.truth(v, None)
+                if decided["bool"] != self.lit(arm["pat"]["lit"]):
+                    continue
+                r = True
             if r is None:
                 # undecidable pattern: fork "this arm's pattern matches" / "does not" (once per distinct pattern)
                 lab = "%s matches %s" % (showv(v), self.showpat(arm["pat"]))
@@ -1110,10 +1128,76 @@ class Run:
                 if it.get("k") == "Fn":
                     # local helper fn: make it inlinable
                     self.cfg.inline.setdefault(it["name"], {"sig": it.get("sig") or {"params": []}, "body": it["body"], "name": it["name"], "local": True})
+                elif it.get("k") in ("Const", "Static") and it.get("init") is not None and is_scalar_const(it["init"]) and it.get("name"):
+                    env[it["name"]] = self.eval(it["init"], {})
                 continue
             else:
                 raise Unsupported("stmt " + k)
         return last
+
+
+def _split_top_ne(lab):
+    """'(A != B)' -> (A, B) when the != is at the top level of the outer parentheses; canonical guards use =="""
+    if not (lab.startswith("(") and lab.endswith(")")):
+        return None
+    depth = 0
+    pos = None
+    i = 0
+    n = len(lab)
+    while i < n:
+        ch = lab[i]
+        if ch == "'" and i + 2 < n and lab[i + 2] == "'":
+            i += 3
+            continue
+        if ch == "'" and i + 3 < n and lab[i + 1] == "\\" and lab[i + 3] == "'":
+            i += 4
+            continue
+        if ch == '"':
+            j = i + 1
+            while j < n and lab[j] != '"':
+                j += 2 if lab[j] == "\\" else 1
+            i = j + 1
+            continue
+        if ch in "([{":
+            depth += 1
+        elif ch in ")]}":
+            depth -= 1
+            if depth == 0 and i != n - 1:
+                return None
+        elif depth == 1 and lab.startswith(" != ", i):
+            if pos is not None:
+                return None
+            pos = i
+        i += 1
+    if pos is None:
+        return None
+    return lab[1:pos], lab[pos + 4:-1]
+
+
+# crate-level scalar constants used when a Config does not name its own (set per crate by scalar_consts())
+DEFAULT_CONSTS = {}
+
+
+def is_scalar_const(init):
+    k = init.get("k")
+    if k == "Lit":
+        return init.get("t") in ("int", "str", "char", "bool", "byte", "float") or isinstance(init.get("v"), (int, str, bool))
+    if k == "Unary" and init.get("op") == "-":
+        return is_scalar_const(init["e"])
+    if k in ("Paren", "Group"):
+        return is_scalar_const(init["e"])
+    if k == "Cast":
+        return is_scalar_const(init["e"])
+    return False
+
+
+def scalar_consts(items):
+    """name -> init expression for the Const/Static items of a crate whose initialiser is a scalar literal and whose name is unique"""
+    seen = {}
+    for it in items:
+        if it.get("k") in ("Const", "Static") and it.get("name") and it.get("init") is not None and not it.get("mut"):
+            seen.setdefault(it["name"], []).append(it)
+    return {n: v[0]["init"] for n, v in seen.items() if len(v) == 1 and is_scalar_const(v[0]["init"])}
 
 
 class _Infeasible(Exception):
